@@ -134,6 +134,8 @@ def run_plot(case: dict) -> dict:
     s = dr.calculate_scaling(shape, w, h, f)
     obs["sc"] = {"width": int(s.width), "height": int(s.height), "frame": int(s.frame),
                  "xw": int(round(s.xscale * float(shape.w) * 1000)), "yh": int(round(s.yscale * float(shape.h) * 1000))}
+    if not (0 <= s.width <= 30000 and 0 <= s.height <= 30000):
+        return {"huge": 1, "sc": obs["sc"]}                # (keeps TLC's 32-bit arithmetic and PIL's memory safe)
     pts = {(0, 0), (2 * dw, 2 * dh), (dw, dh), (2 * dw, 0), (0, 2 * dh)}
     rng = random.Random(case.get("seed", 0))
     pts |= {(rng.randint(0, 2 * dw), rng.randint(0, 2 * dh)) for _ in range(14)}
@@ -156,9 +158,16 @@ def run_plot(case: dict) -> dict:
     obs["centers"] = []
     if not obs["check"]:
         for e in netlist.edges:
-            ps = dr.calculate_centers(e, alloc)
+            try:
+                ps = dr.calculate_centers(e, alloc)
+            except Exception:          # judged as "no points" (clause centers)
+                ps = []
             obs["centers"].append([[q(p.x), q(p.y)] for p in ps])
-    obs["plot"] = _observe_plot(dr, netlist, shape, alloc, w, h, f)
+    if (s.width + 2 * f) * (s.height + 2 * f) > 16_000_000:      # a picture this big is not drawn (memory); the scaling is judged
+        obs["plot"] = {"raised": 0, "exc": "", "size": [0, 0], "prims": [], "skipped": 1}
+    else:
+        obs["plot"] = _observe_plot(dr, netlist, shape, alloc, w, h, f)
+        obs["plot"]["skipped"] = 0
     return obs
 
 
@@ -248,6 +257,10 @@ def random_plot(rng: random.Random, emb: str) -> dict:
     dw, dh = rng.choice([(rng.randint(2, 60), rng.randint(2, 60)), (rng.randint(40, 60), 1), (1, rng.randint(40, 60))])
     w = rng.choice([0, 0, rng.randint(1, 1200)])
     h = rng.choice([0, 0, rng.randint(1, 1200)])
+    if dh * 5 < dw and w == 0:          # a flat die: ask for the long side only (the picture would be 50 x wider than asked)
+        h = min(h, 40)
+    if dw * 5 < dh and h == 0:
+        w = min(w, 40)
     f = rng.choice([0, 1, 20, 40, rng.randint(0, 100)])
     mods = []
     for k in range(rng.randint(0, 8)):
@@ -265,9 +278,12 @@ def random_plot(rng: random.Random, emb: str) -> dict:
         else:
             mods.append([f"M{k}", "terminal", x, y, 0, []])
     nets = []
-    if len(mods) >= 2:
+    # pins on modules with at most one rectangle (the centroid of several rectangles has a large denominator: TLC's
+    # rationals are 32-bit; those centroids are covered by the TLC designs)
+    pinnable = [i + 1 for i, m in enumerate(mods) if len(m[5]) <= 1]
+    if len(pinnable) >= 2:
         for _ in range(rng.randint(0, 4)):
-            nets.append(rng.sample(range(1, len(mods) + 1), rng.randint(2, min(5, len(mods)))))
+            nets.append(rng.sample(pinnable, rng.randint(2, min(4, len(pinnable)))))
     return {"kind": "plot", "src": "rnd", "emb": emb, "die": [dw, dh], "req": [w, h, f], "loose": 0, "seed": rng.randrange(1 << 30),
             "design": {"mods": mods, "nets": nets, "cells": []}}
 
@@ -393,6 +409,11 @@ def decide(ctx: Ctx, cases: list[dict]):
             ctx.count()
             ctx.violation("returns", _small(c), {"status": status}, _features(c, "returns", {}))
             continue
+        if c["kind"] == "plot" and obs.get("huge"):
+            ctx.count()
+            ctx.violation("scaling_aspect", _small(c), {"sc": obs["sc"], "why": "picture side beyond 30000 pixels (not sent to TLC)"},
+                          _features(c, "scaling_aspect", obs))
+            continue
         if c["kind"] == "plot":
             st["plot_refused"] += obs["plot"]["raised"]
             st["primitives_recorded"] += len(obs["plot"]["prims"])
@@ -407,7 +428,8 @@ def decide(ctx: Ctx, cases: list[dict]):
             t = {"kind": "plot", "die": c["die"], "req": c["req"], "loose": 1,
                  "design": {"mods": [], "nets": [], "cells": []},
                  "obs": {"sc": obs["sc"], "pts": obs["pts"], "check": 0, "bbox": [], "centers": [],
-                         "plot": {"raised": obs["plot"]["raised"], "size": obs["plot"]["size"], "prims": obs["plot"]["prims"][:2]}}}
+                         "plot": {"raised": obs["plot"]["raised"], "size": obs["plot"]["size"], "prims": obs["plot"]["prims"][:2],
+                                  "skipped": obs["plot"]["skipped"]}}}
         key = digest(t)
         if key not in traces:
             t["id"] = key
@@ -462,11 +484,18 @@ def run(ctx: Ctx) -> int:
     # main(): drawable designs with a non-degenerate picture, file names with and without extension / dotted directories
     mains = [g for g in plots if g["design"]["mods"] and all(m[1] != "nocentre" for m in g["design"]["mods"])
              and g["req"][2] >= 1 and g["die"] != [40, 1]]
-    main_names = [n["name"] for n in names if "/" not in n["name"][:1]] or [["a"]]
+    # (relative names without doubled slashes: the harness finds the created file by walking the directory)
+    main_names = [n["name"] for n in names if "/" not in n["name"][:1] and "//" not in "".join(n["name"])] or [["a"]]
     for i, g in enumerate(rng.sample(mains, min(len(mains), 60 if quick else 600))):
         nm = main_names[i % len(main_names)]
         cases.append({"kind": "main", "src": "tlc", "emb": ORIGIN0[i % len(ORIGIN0)], "die": g["die"], "req": g["req"], "design": g["design"],
                       "name": nm, "outopt": list("out.gif") if i % 4 == 3 else []})
+    # every allocation scene through main() under the inexact embeddings as well
+    scenes = {canon(g["design"]): g for g in plots if g["design"]["cells"] and g["req"][2] >= 1}
+    for g in list(scenes.values())[:4]:
+        for e in ("third", "dec", "flt"):
+            cases.append({"kind": "main", "src": "tlc", "emb": e, "die": g["die"], "req": [100, 0, 20], "design": g["design"],
+                          "name": list("aa.a"), "outopt": []})
     nrnd = 200 if quick else 4000
     cases += [random_plot(rng, ORIGIN0[i % len(ORIGIN0)]) for i in range(nrnd)]
     cases += netgen_cases(rng, 40 if quick else 400)
